@@ -162,6 +162,35 @@ def work_faults(chunk, st):
                     st.violation('gexfault:size-reported-although-follow-up-probe-failed', {'moduli': list(sub), 'plan': plan, 'alg': alg, 'reported': entry['size']})
 
 
+# ---- histories: several group-exchange servers in ONE invocation; each is judged from its own log
+HIST_SERVERS = [((1024, 4096), P.STRICT, 'both', 'other'), ((4096,), P.STRICT, 'both', 'other'), ((), P.STRICT, 'both', 'other'),
+                ((2048,), P.OPENSSH, 'sha256', 'openssh'), ((3072, 4096), P.OPENSSH, 'both', 'openssh'), ((), P.STRICT, 'sha1', 'openssh')]
+
+
+def work_history(chunk, st):
+    for idxs, fmt in chunk:
+        specs = [HIST_SERVERS[i] for i in idxs]
+        servers = [make_server(*sp) for sp in specs]
+        res, outs = H.audit_sequence(servers, opts=['-n', '--skip-rate-test'] + (['-j'] if fmt == 'json' else []))
+        st.execution(res.world, outcome=('history', fmt, len(idxs)), root=('history', idxs, fmt), nontrivial=('history', idxs, fmt))
+        if outs is None or len(outs) != len(idxs):
+            st.violation('history:output-shape', {'servers': [list(map(str, sp)) for sp in specs], 'stdout': res.stdout[-200:]})
+            continue
+        for sp, srv, o in zip(specs, servers, outs):
+            sub, style, offer, banner = sp
+            for alg in OFFERS[offer]:
+                want, _fb = expected_from_log(srv, alg, banner)
+                if fmt == 'json':
+                    got = next((x for x in o.get('kex', []) if x['algorithm'] == alg), {}).get('keysize')
+                else:
+                    e = next((a for a in report.TextReport(o).algs['kex'] if a['name'] == alg), None)
+                    got = e['size'] if e else None
+                if got != want:
+                    st.violation('history:size-depends-on-other-targets:%s' % fmt, {'servers_in_run': [list(map(str, x)) for x in specs], 'server': list(map(str, sp)), 'alg': alg,
+                                                                                   'reported': got, 'expected': want})
+    st.sample({'history_of_gex_servers': [list(map(str, HIST_SERVERS[i])) for i in chunk[0][0]]}, cap=14)
+
+
 def run(tier, seed):
     t0 = time.time()
     sizes = QUICK_SIZES if tier == 'quick' else ALL_SIZES
@@ -169,6 +198,11 @@ def run(tier, seed):
              for offer in OFFERS for banner in BANNERS]
     st = par.pmap(work, tasks)
     par.pmap(work_faults, fault_tasks(tier), stats=st)
+    n = len(HIST_SERVERS)
+    hist = [(k, f) for k in itertools.permutations(range(n), 2) for f in ('text', 'json')]
+    if tier != 'quick':
+        hist += [(k, 'json') for k in itertools.permutations(range(n), 3)]
+    par.pmap(work_history, hist, stats=st, chunk=3)
     vcases = []
     for sub, style, offer, banner in H.pick(tasks, seed, 16 if tier == 'quick' else 80):
         vcases.append({'label': 'gex %s %s %s %s' % (sub, style, offer, banner), 'opts': ['-n'] + (['-j'] if len(vcases) % 2 else []),
